@@ -214,6 +214,21 @@ claim("C06", "other",
       "static analysis: partial evaluation on generic symbolic coefficients + effect (race) analysis of prange bodies",
       "DESIGN.md §5 C06")
 
+claim("C07", "other",
+      "The Hamiltonian builders are interpreted with the polynomial primitives replaced by their ring summaries (each "
+      "summary justified by C06.c): T_n = rho^n P_n(x/rho) and A_n = rho^n P_n(d.r/rho) for n <= 6 (9 thorough); the "
+      "collinear and triangular assemblies equal the stated closed forms with symbolic c_n, mu, sign; for L1, L2, L3 every "
+      "homogeneous part n = 2..4 (5 thorough) of the polynomial equals the multivariate Taylor coefficient of the exact "
+      "energy pulled back through the library's own _local2synodic_collinear, with c_n := _compute_cn(n), as rational "
+      "identities in (mu, gamma); the local origin must map to the libration point at rest; the second time derivative of "
+      "the mapped position along Hamilton's equations of the un-truncated pulled-back energy must equal _crtbp_accel at the "
+      "mapped state (exact identities; L1/L2 hold). Pipeline builder selection and form name.",
+      "Trusted: hv.polymodel summaries, sympy series/legendre, E_true = the Jacobi formula proved a first integral in C01.d. "
+      "Known findings: L3 accelerations; triangular local map (origin and accelerations). Not decided: the O(r^(N+1)) "
+      "remainder as a measured rate; degrees above the bound.",
+      "static analysis: partial evaluation with polynomial-ring summaries + exact series/term identities",
+      "DESIGN.md §5 C07")
+
 PENDING = ["C02", "C03", "C04", "C05", "C06", "C07", "C08", "C09", "C10", "C11", "C12", "C13", "C14", "C15",
            "C16", "C17", "C18", "C19", "C20"]
 
